@@ -2,6 +2,9 @@
 (deap/creator.py, deap/base.py Toolbox + Fitness.__deepcopy__, gp.PrimitiveTree.__deepcopy__).
 
 Streams
+  derive creator classes DERIVED FROM creator classes (props/c16_derive.py): histories create / instantiate / derive / instantiate
+         over chains of 1..3 levels and every base; clause 1 on every instance (own, fresh, unshared, write-independent attributes
+         for every declaration on the creator-MRO), clone + pickle of every level; replayed by Heap.runEvents (Core/HeapDerive.lean).
   obj    one created class + one instance: creation twice (fresh per-instance attributes), clone chains
          through toolbox.clone, pickle round trips with EVERY protocol in this interpreter; each is sent
          to the heap model (Core/Heap.lean) as a concrete object graph and the model's copy is compared
@@ -52,7 +55,10 @@ ANCHORS = [("deap/creator.py", []),
                            "MetaEphemeral"]),
            ("deap/tools/init.py", ["initRepeat", "initIterate", "initCycle"])]
 LEVEL = "partial"
-RULE = ("initialisers: tools.initRepeat / initCycle / initIterate with counting closures x every base (list, array b/i/d, ndarray int/float, set, dict) "
+RULE = ("derived classes: chains of 1..3 creator classes derived from a creator class of every base (list, array b/i/d, ndarray int/float, set, dict, "
+        "PrimitiveTree), the child redeclaring none / some / all of the inherited per-instance attributes and adding its own, class-level attributes on every "
+        "level, histories create / instantiate / derive / instantiate parent-first, child-first and interleaved (5 fixed chain shapes x 9 bases + random chains); "
+        "initialisers: tools.initRepeat / initCycle / initIterate with counting closures x every base (list, array b/i/d, ndarray int/float, set, dict) "
         "x 8 attribute configurations, 1..3 individuals built consecutively, n in 0..5, 1..3 functions, generator returning list / tuple / iterator; "
         "structured enumeration: every base (list, array b/i/d, ndarray int/float/bool and float32/int8/uint8/int16/"
         "complex64, set, dict, PrimitiveTree; fitness values incl. non power-of-two weights with values whose weighted "
@@ -1729,6 +1735,9 @@ def eval_tbcls(d):
 
 
 def evaluate(d):
+    if d["k"] == "derive":
+        from props import c16_derive
+        return c16_derive.evaluate(d)
     if d["k"] == "init":
         from props import c16_init
         return c16_init.evaluate(d)
@@ -2040,6 +2049,12 @@ def tb_case(rng):
 
 def generate(tier, rng, mult):
     thorough = tier == "thorough"
+    # 00. creator classes DERIVED FROM creator classes (1-3 levels, redeclaring none / some / all of the inherited per-instance
+    #     attributes, every base, parent-first / child-first / interleaved histories): clause 1 on every instance of the chain, clone and
+    #     pickle of every level (props/c16_derive.py; Heap.runEvents / createD, theorem derived_create_fresh_attrs)
+    from props import c16_derive
+    for d in c16_derive.generate(tier, rng, mult):
+        yield d
     # 0. individuals built by tools.initRepeat / initCycle / initIterate from creator classes of every base, with counting functions
     #    (props/c16_init.py; theorems initRepeat_calls, initCycle_calls, initIterate_spec, initRepeat_fresh_attrs)
     from props import c16_init
@@ -2112,6 +2127,11 @@ def generate(tier, rng, mult):
 
 
 def shrink(d):
+    if d["k"] == "derive":
+        from props import c16_derive
+        for e in c16_derive.shrink(d):
+            yield e
+        return
     if d["k"] == "init":
         from props import c16_init
         for e in c16_init.shrink(d):
